@@ -325,7 +325,7 @@ def run_case(case, ctx):
         uniq.setdefault(v["key"] + v["what"][:80], v)
     out = list(uniq.values())
     return {"outcome": "violations" if viol else "held", "nontrivial": True, "violations": out[:12], "counters": counters,
-            "sigs": sigs, "evals": counters.get("accept_direction", 0) + counters.get("reject_direction", 0) + counters.get("reject_direction_nested", 0),
+            "sigs": sigs, "evals": counters.get("accept_direction", 0) + counters.get("reject_direction", 0) + counters.get("reject_direction_nested", 0) + counters.get("reject_direction_parsed_text", 0),
             "obs": {"attributes": len(cls.c_attributes), "cardinality_entries": len(cls.c_cardinality)}}
 
 
